@@ -582,7 +582,7 @@ VarStyle(c, bol, st) ==
 \* a run of values; firstBol = FALSE: something (the data name) precedes on the line
 VarRow(cells, firstBol, st) ==
   LET r == FoldLeft(LAMBDA acc, c :
-             LET sty == VarStyle(c, acc.bol, st)
+             LET sty == VarStyle(c, acc.bol \/ st.split, st)      \* split: the value will start a line
                  t   == RefRender(c, sty)
              IN IF sty = "text" THEN [txt |-> acc.txt \o (IF acc.bol THEN Tail(t) ELSE t), bol |-> TRUE]
                 ELSE IF st.split
